@@ -60,3 +60,67 @@ Proof.
   assert (Pth : 0 < t * q1 + (1 - t) * q2) by nra.
   unfold dgbin. field. repeat split; lra.
 Qed.
+
+(* ================= n chemicals: derivative along a direction of the composition simplex =================
+   Along x(h) = x + h (e_a - e_b) the three mixture sums are affine in h:
+   P(h) = P + h dP (volume parameter of V'), R(h) = R + h dR, Th(h) = Th + h dTh. *)
+From Coq Require Import List.
+Import ListNotations.
+
+Definition gdir (rp r q P dP Rr dR Th dTh h : R) : R :=
+  lit_comb (rp / (P + h * dP)) (r / (Rr + h * dR)) (q / (Th + h * dTh)) q.
+
+Definition dgdir (rp r q P dP Rr dR Th dTh : R) : R :=
+  rp * dP / (P * P) - dP / P
+  - 5 * q * ( - (r / q) * (dTh * Rr - Th * dR) / (Rr * Rr) + (dTh / Th - dR / Rr)).
+
+Lemma gdir_derive rp r q P dP Rr dR Th dTh :
+  0 < rp -> 0 < r -> 0 < q -> 0 < P -> 0 < Rr -> 0 < Th ->
+  is_derive (fun h => gdir rp r q P dP Rr dR Th dTh h) 0 (dgdir rp r q P dP Rr dR Th dTh).
+Proof.
+  intros Hrp Hr Hq HP HR HT.
+  unfold gdir, lit_comb, dgdir.
+  assert (E0 : P + 0 * dP = P) by ring.
+  assert (E1 : Rr + 0 * dR = Rr) by ring.
+  assert (E2 : Th + 0 * dTh = Th) by ring.
+  auto_derive.
+  - rewrite E0, E1, E2.
+    assert (P0 : 0 < rp * / P) by (apply Rmult_lt_0_compat; [lra|apply Rinv_0_lt_compat; lra]).
+    assert (P1 : 0 < r * / Rr) by (apply Rmult_lt_0_compat; [lra|apply Rinv_0_lt_compat; lra]).
+    assert (P2 : 0 < q * / Th) by (apply Rmult_lt_0_compat; [lra|apply Rinv_0_lt_compat; lra]).
+    assert (P3 : 0 < r * / Rr * / (q * / Th)) by (apply Rmult_lt_0_compat; [lra|apply Rinv_0_lt_compat; lra]).
+    repeat split; try lra.
+  - rewrite E0, E1, E2. field. repeat split; lra.
+Qed.
+
+Lemma sumR_lin4 {B} (cs : list B) (f1 f2 f3 f4 : B -> R) a b c d :
+  sumR (map (fun u => a * f1 u + b * f2 u + c * f3 u + d * f4 u) cs) =
+  a * sumR (map f1 cs) + b * sumR (map f2 cs) + c * sumR (map f3 cs) + d * sumR (map f4 cs).
+Proof. induction cs as [|u t IH]; simpl; [ring|]. rewrite IH. ring. Qed.
+
+Lemma sumR_map_ext_in {B} (cs : list B) f g : (forall u, In u cs -> f u = g u) -> sumR (map f cs) = sumR (map g cs).
+Proof. intros H. f_equal. apply map_ext_in. exact H. Qed.
+
+(* sum_i x_i dln(gamma_i^C)/dh = 0 at h = 0, for any direction (dP, dR, dTh) of the mixture sums, when
+   sum x = 1 and the three sums are the x-weighted means of the per-chemical parameters *)
+Lemma gibbs_duhem_comb_direction {B} (cs : list B) (fx frp fr fq : B -> R) P dP Rr dR Th dTh :
+  (forall u, In u cs -> 0 < frp u /\ 0 < fr u /\ 0 < fq u) ->
+  0 < P -> 0 < Rr -> 0 < Th ->
+  sumR (map fx cs) = 1 ->
+  sumR (map (fun u => fx u * frp u) cs) = P ->
+  sumR (map (fun u => fx u * fr u) cs) = Rr ->
+  sumR (map (fun u => fx u * fq u) cs) = Th ->
+  sumR (map (fun u => fx u * Derive (fun h => gdir (frp u) (fr u) (fq u) P dP Rr dR Th dTh h) 0) cs) = 0.
+Proof.
+  intros Pos HP HR HT S1 SP SR ST.
+  rewrite (sumR_map_ext_in cs _
+    (fun u => (dP / (P * P)) * (fx u * frp u) + (- (dP / P)) * fx u
+              + (5 * (dTh * Rr - Th * dR) / (Rr * Rr)) * (fx u * fr u)
+              + (- 5 * (dTh / Th - dR / Rr)) * (fx u * fq u))).
+  - rewrite sumR_lin4. rewrite S1, SP, SR, ST. field. repeat split; lra.
+  - intros u Hu. destruct (Pos u Hu) as (Hrp & Hr & Hq).
+    pose proof (is_derive_unique _ _ _ (gdir_derive (frp u) (fr u) (fq u) P dP Rr dR Th dTh Hrp Hr Hq HP HR HT)) as D.
+    replace (Derive (fun h => gdir (frp u) (fr u) (fq u) P dP Rr dR Th dTh h) 0)
+      with (dgdir (frp u) (fr u) (fq u) P dP Rr dR Th dTh) by (symmetry; exact D).
+    unfold dgdir. field. repeat split; lra.
+Qed.
